@@ -382,6 +382,52 @@ theorem extract_if_drops_once (v : Vec) (calls : Nat) (o : List Outcome) (hv : v
     (by simpa using extractSpec_perm calls v.abs o) ?_ (by simpa using hv.2)
   have := extractSpec_len calls v.abs o; have := hv.len_le_cap; omega
 
+/-- a LEAKED `Drain` (`mem::forget` after any pulls): no fault; the owner shows exactly the elements before the
+    range (`len = start`), no destructor ran, the yielded values went to the caller, and every id is still
+    accounted for exactly once (`total` is a permutation of the old one: what is still in the range and the tail
+    sits beyond `len`, leaked) — so dropping the owner afterwards cannot drop anything twice -/
+theorem drain_forget_leaks (v : Vec) (start end_ : Nat) (script : List Pull) (hv : v.WF) (hr : start ≤ end_ ∧ end_ ≤ v.len) :
+    ∃ r, drainForget v start end_ script = .ok r ∧ r.vec.len = start ∧ r.vec.abs = v.abs.take start ∧
+      r.vec.dropLog = v.dropLog ∧
+      r.vec.escaped = v.escaped ++ yielded (pullsSpec ((v.abs.take end_).drop start) script).1 ∧
+      r.exit = .ret (pullsSpec ((v.abs.take end_).drop start) script).1 ∧
+      r.vec.total.Perm v.total ∧ r.vec.total.Nodup := by
+  have ⟨hs, hl⟩ := hv.slots_eq
+  unfold drainForget
+  have hr' : ¬ (start > end_ ∨ end_ > v.len) := by omega
+  simp only [hr', ↓reduceIte]
+  obtain ⟨head, hhead⟩ : ∃ l, l = v.abs.take start := ⟨_, rfl⟩
+  obtain ⟨range, hrange⟩ : ∃ l, l = (v.abs.take end_).drop start := ⟨_, rfl⟩
+  obtain ⟨tail, htail⟩ : ∃ l, l = v.abs.drop end_ := ⟨_, rfl⟩
+  have hxs : v.abs = head ++ (range ++ tail) := by
+    have h1 : v.abs.take start = (v.abs.take end_).take start := by rw [List.take_take]; congr 1; omega
+    rw [hhead, hrange, htail, h1, ← List.append_assoc, List.take_append_drop, List.take_append_drop]
+  have hhl : head.length = start := by rw [hhead]; simp; omega
+  have hrl : range.length = end_ - start := by rw [hrange]; simp; omega
+  have hs0 : (setLen v start).slots = I head ++ H 0 ++ I range ++ H 0 ++ (I tail ++ H (v.cap - v.len)) := by
+    simp only [setLen]; rw [hs]; conv => lhs; rw [hxs]
+    simp
+  obtain ⟨a', b', vp, dp, e1, sp, lp, dlp, escp, _, _, _, _, _⟩ := drainPulls_ex script (setLen v start)
+    { tailStart := end_, tailLen := v.len - end_, ptr := start, end_ := end_ } (I head) _ 0 0 range hs0
+    (by simp; omega) (by simp; omega)
+  rw [e1, ← hrange]
+  have hperm := pullsSpec_perm script range
+  have habs : vp.abs = head := by
+    simp only [Vec.abs, lp, setLen, sp]
+    rw [← hhl]
+    simp [List.take_append, idsOf_append, idsOf_I]
+  have htot : vp.total.Perm v.total := by
+    rw [hv.total_eq]
+    simp only [Vec.total, sp, dlp, escp, setLen, idsOf_append, idsOf_I, idsOf_H, List.append_nil]
+    rw [List.perm_iff_count] at hperm ⊢
+    intro a
+    have h1 := hperm a
+    have h2 := congrArg (List.count a) hxs
+    simp only [List.count_append] at h1 h2 ⊢
+    omega
+  exact ⟨_, rfl, by simp [lp, setLen], by rw [habs, hhead], by simp [dlp, setLen], by simp [escp, setLen], rfl, htot,
+    htot.nodup_iff.mpr hv.2⟩
+
 /-! ## `map_in_place` (closure `T → U` with `U` of the size of `T`), `append` -/
 
 /-- every element is handed to the closure exactly once; if the closure panics, the unread elements
